@@ -48,6 +48,10 @@ def run(chk: Check):
     # a penalty matrix held as an integer array (D'D of an integer difference matrix)
     traces.append({"hdr": {"kind": "tau2", "d": 4, "order": 2, "nontrivial": True, "int_penalty": True},
                    "ev": G.tau2_events(rng, 4, 2, nkeys=2 if chk.quick else 6, int_penalty=True)})
+    # a group put together by hand whose penalty matrix is computed from weights in the state (cached / on the fly)
+    for tr in (False, True):
+        traces.append({"hdr": {"kind": "tau2_handmade" + ("_transient" if tr else ""), "d": 5, "order": 1, "nontrivial": True},
+                       "ev": G.tau2_handmade_events(rng, transient=tr, nkeys=2 if chk.quick else 6)})
     for kind in ("prior_only", "bernoulli_direct", "finite_via_named_var", "bernoulli_two_children", "bernoulli_tempered",
                  "finite_int_current", "finite_start_outside", "finite_zero_prior", "residual_weak_dist",
                  "bernoulli_outcomes_reversed", "finite_outcomes_unsorted", "finite_auto_name_clash"):
